@@ -294,4 +294,8 @@ def rule_asm_pad_threshold(chk, rid='P6', floor=1):
                     'offsets up to %s, but a marker at offset %d leaves no room for it (and one at %d does)' % (
                         f['fn'], rel, ' '.join(f['marker'].split()), ' '.join(f['test'].split()), f['L'],
                         f['rmax'] if f['rmax'] is not None else 'the top of the block', f['L'], f['L'] - 1))
+            r.check(not f.get('gaps'), '%s:%s:clear' % (rel, f['fn']), rel,
+                    '%s (%s): when the length does not fit, the block is compressed and re-used for the length alone, but bytes %s.. of it are not '
+                    'overwritten before the length is stored at offset %d: message bytes of the previous block are hashed as padding' % (
+                        f['fn'], rel, f.get('gaps', [])[:1], f['L']))
     return r
